@@ -53,6 +53,9 @@ META = dict(
          "daylight saving, a fifth with the host's own offset change inside the run - installed with TZ + time.tzset() in the driver, the "
          "controlled clock answering now() without tz with the host's wall clock, with naive and aware (UTC / fixed offset / host-local) "
          "one-shots in the future, in the past and where a local reading would land in the run; 1 in 14 of the plain runs on such a host too; "
+         "5 % give 60 % of their schedules (and the tasks of a label source) labels whose values are members of a str-mixin Enum / IntEnum, "
+         "instances of plain subclasses of str / int / float / bytes, values of non-primitive types (Decimal, date, UUID, tuple, None ...), "
+         "strs with lone surrogates / non-BMP / NUL / thousands of characters, or plain primitives; 1 in 14 of the plain runs likewise; "
          "neither the oracle nor the model sees the host zone); non-trivial iff it crosses >= 3 minute boundaries "
          "with a cron both due and not due, >= 1 one-shot, >= 1 injected failure; distinct by canonical JSON",
     trusted_base=["model: coq/theories/SchedLoop.v (hand-written transcription of taskiq/cli/scheduler/run.py loop + system model)",
@@ -738,6 +741,118 @@ def count_payload(rep, c, o):
                     coerced = p["args"] in ("tuple", "deque") or p.get("tcls")
                     rep.count("payload:one-shot-sent:%s:later-polls-%s" % ("coerced-payload" if coerced else "payload-as-stored",
                                                                            ">=3" if later >= 3 else "<3") + lab)
+
+
+# ------------------------------------------------------------------ label VALUES of the schedules (round 11)
+NLAB = (24, 600)                          # runs whose schedules carry labels with values of varied types: quick, thorough
+LKEYS = ["queue", "prio", "kind", "tag", "ratio"]
+
+
+def FL(x):
+    return {"__float__": float(x).hex()}
+
+
+# spelled the way the C16 cases spell values that are not JSON natives (source_driver.dec builds them in the driver; the classes
+# live there): members of a str-mixin Enum / of IntEnums, instances of plain subclasses of str / int / float / bytes ...
+LV_SUBCLASS = [{"__enum__": ["Kind", "A"]}, {"__enum__": ["Kind", "B"]}, {"__enum__": ["Prio", "P0"]}, {"__enum__": ["Prio", "P2"]},
+               {"__enum__": ["Sw", "ON"]}, {"__enum__": ["Sw", "OFF"]}, {"__sub__": ["str", "high"]}, {"__sub__": ["str", ""]},
+               {"__sub__": ["int", 7]}, {"__sub__": ["int", 0]}, {"__sub__": ["float", FL(2.5)]}, {"__sub__": ["bytes", {"__bytes__": "6162"}]}]
+# ... values of types that are no primitive at all (they travel as text) ...
+LV_OTHER = [{"__enum__": ["Mode", "FULL"]}, {"__enum__": ["Level", "HIGH"]}, {"__enum__": ["Perm", 3]}, {"__dec__": "1.50"},
+            {"__frac__": [1, 3]}, {"__date__": [2024, 2, 29]}, {"__uuid__": "%032x" % 5}, {"__tuple__": [1, "a"]}, {"__fset__": [1]},
+            {"__bytes__": "00ff"}, {"__bytearray__": "6162"}, {"__path__": "/x/y"}, {"__td__": 5_000_000}, None, [1, 2], {"k": [1]}]
+# ... str values with unusual content (what the unchanged tree sends through the default formatter / serializer: notes/C08.md
+# "Round 10") ...
+LV_TEXT = ["caf\udce9.csv", "\ud800", "a\udc80b", "\U0001F600", "a\x00b", "caf\u00e9", "\ufeff", "\\ud83d", "x" * 6000, "ab\udce9" * 700]
+# ... and the primitives themselves
+LV_PLAIN = ["high", "", 0, -1, 7, True, False, 2.5, 1e300, {"__bytes__": "6162"}]
+
+
+def lv_kind(v):
+    """what kind of label value this is (evidence; `subclass` = an instance of a proper subclass of a primitive type)"""
+    if isinstance(v, dict) and len(v) == 1:
+        k, x = next(iter(v.items()))
+        if k == "__enum__":
+            return {"Kind": "subclass:str-mixin Enum member", "Prio": "subclass:IntEnum member", "Sw": "subclass:IntEnum member",
+                    "Perm": "Flag member"}.get(x[0], "Enum member")
+        if k == "__sub__":
+            return "subclass:instance of a %s subclass" % x[0]
+        if k.startswith("__") and k.endswith("__"):
+            return {"dec": "Decimal", "frac": "Fraction", "fset": "frozenset", "td": "timedelta"}.get(k.strip("_"), k.strip("_"))
+    if isinstance(v, str):
+        if any(0xD800 <= ord(ch) <= 0xDFFF for ch in v):
+            return "str with a lone surrogate"
+        return "str, long" if len(v) >= 5000 else "str, non-ASCII / NUL" if any(ord(ch) > 126 or ch == "\x00" for ch in v) else "str"
+    return "None" if v is None else type(v).__name__
+
+
+def labelify(r, c, aimed=True):
+    """The VALUES of the schedules' labels, which every loop run so far held to a handful of plain strs / small ints (and most
+    schedules had no labels of their own at all): here about 60 % of the run's schedules - cron, one-shot, any source kind -
+    get 1-3 labels whose values are, half of them, instances of SUBCLASSES of the primitive label types (str-mixin Enum and
+    IntEnum members - the usual way to spell a queue or a priority -, plain subclasses of str / int / float / bytes), the rest
+    values of other types (plain Enum / Flag members, Decimal, date, UUID, tuple, bytes, None, lists), strs with unusual but
+    valid content (lone surrogates of a surrogateescape-decoded file name, non-BMP, NUL, long) and the primitives themselves;
+    the tasks of a label source get such labels of their own half of the time (the source merges them into every schedule).
+    The unchanged kicker sends all of them (prepare_label: exact primitives keep their type, everything else travels as text),
+    so the statement and the model demand what they always did: every due schedule sent once per occurrence.  aimed: at least
+    one schedule of the run carries a subclass value.  Applied to a run of any family (everything else stays as it was)."""
+    def lv():
+        q = r.random()
+        return r.choice(LV_SUBCLASS if q < .5 else LV_OTHER if q < .7 else LV_TEXT if q < .85 else LV_PLAIN)
+
+    ents = [e for s in c["sources"] for e in s["entries"]]
+    chosen = [e for e in ents if r.random() < .6]
+    if aimed and not chosen:
+        chosen = [r.choice(ents)]
+    for n, e in enumerate(chosen):
+        L = {k: lv() for k in r.sample(LKEYS, r.choice([1, 1, 2, 3]))}
+        if aimed and n == 0 and not any(lv_kind(v).startswith("subclass") for v in L.values()):
+            L[r.choice(LKEYS)] = r.choice(LV_SUBCLASS)
+        p = e.get("pay")
+        if not p:
+            p = e["pay"] = dict(carrier="args", args="list", xargs=[], kwargs={}, labels=None, extra={})
+        p["labels"] = dict(p.get("labels") or {}, **L)
+    for s in c["sources"]:
+        if s["kind"] == "label" and r.random() < .5:
+            names = sorted({e["task"] for e in s["entries"]})
+            s["tlabels"] = {n: {k: lv() for k in r.sample(LKEYS, r.choice([1, 2]))} for n in names if r.random() < .7}
+    c["labelled"] = True
+    return c
+
+
+def gen_labelled(r):
+    q = r.random()
+    c = gen_payload(r) if q < .2 else gen_zones(r) if q < .3 else stylize(r, gen_case(r)) if q < .4 else gen_case(r, long=q > .97)
+    labelify(r, c)
+    c["family"] = "label-values"
+    return c
+
+
+def count_labels(rep, c, o):
+    """evidence distribution of the label values, and of the sends of schedules that carry a subclass-of-primitive value"""
+    if not c.get("labelled"):
+        return
+    rep.count("label-values:runs")
+    sub = set()
+    for i, s in enumerate(c["sources"]):
+        tl = s.get("tlabels") or {}
+        for n, L in sorted(tl.items()):
+            for v in L.values():
+                rep.count("label-values:task-label:" + lv_kind(v))
+        for e in s["entries"]:
+            L = dict((e.get("pay") or {}).get("labels") or {})
+            L.pop("sid", None)
+            vals = list(L.values()) + list((tl.get(e.get("task")) or {}).values())
+            for v in L.values():
+                rep.count("label-values:" + lv_kind(v) + (":label-source" if s["kind"] == "label" else ""))
+            if vals:
+                rep.count("label-values:schedules-with-such-labels:" + e["kind"])
+            if any(lv_kind(v).startswith("subclass") for v in vals):
+                sub.add((i, e["sid"]))
+    if sub:
+        rep.count("label-values:runs-with-a-subclass-of-primitive-value")
+    rep.count("label-values:sends-of-schedules-with-a-subclass-of-primitive-value", sum(1 for k in o["kicks"] if (k[0], k[1]) in sub))
 
 
 # ------------------------------------------------------------------ equal times in ONE task, with failing / slow earlier sends
@@ -1531,6 +1646,7 @@ def explore(ctx, rep, cases, label, shard=25, chunk=None):
             count_payload(rep, c, o)
         count_equal(rep, c, o)
         count_callbacks(rep, c, o)
+        count_labels(rep, c, o)
         if c.get("host"):
             count_host(rep, c, o)
         rep.count("kicks", len(o["kicks"]))
@@ -1625,6 +1741,10 @@ def run(ctx):
     for k, c in enumerate(cases):          # 1 in 14 of the plain runs: the same run on a host in another zone
         if k % 14 == 4:
             hostify(r8, c, *pick_host(r8), aimed=False)
+    r9 = ctx.sub_rng("label-values")
+    for k, c in enumerate(cases):          # 1 in 14 of the plain runs: the same run, its schedules labelled with varied values
+        if k % 14 == 12:
+            labelify(r9, c, aimed=False)
     broken = explore(ctx, rep, cases, "main")
     # long runs (hours; ~26 h): few schedules whose next occurrence is an hour / some hours / a day away - see gen_long
     r3 = ctx.sub_rng("long")
@@ -1648,6 +1768,8 @@ def run(ctx):
     broken = explore(ctx, rep, [gen_callbacks(r7, k) for k in range(ctx.n(*NCB))], "callback-styles") or broken
     # runs on a host whose time zone is not UTC - see hostify
     broken = explore(ctx, rep, [gen_hosts(r8, k) for k in range(ctx.n(*NHOST))], "host-zone") or broken
+    # runs whose schedules carry labels with values of varied types (subclasses of the primitives, unusual text) - see labelify
+    broken = explore(ctx, rep, [gen_labelled(r9) for _ in range(ctx.n(*NLAB))], "label-values") or broken
     corpus_known[SIG_EQ] = known_equal_times(ctx, rep)
     unexplained = [f for f in rep.failures if not sig_d7(f) and not sig_eq(f)]
     if (broken or any(not o["ok"] for o in rep.obligations)) and not unexplained:
